@@ -117,6 +117,19 @@ static H3Index straight(H3Index h, int steps) { /* walk in one IJ direction via 
     return h;
 }
 
+/* paths from one origin to targets of every (base cell, leading digit) class within K steps */
+static void ev_path_classes(H3Index a, int K, int per) {
+    int64_t sz; maxGridDiskSize(K, &sz); H3Index *d = calloc(sz, sizeof(H3Index));
+    if (gridDisk(a, K, d)) { free(d); return; }
+    static int cnt[128 * 8]; memset(cnt, 0, sizeof cnt);
+    int64_t start = (int64_t)vt_randn(sz);
+    for (int64_t i = 0; i < sz; i++) {
+        H3Index b = d[(start + i * 7919) % sz]; if (!b) continue;
+        int key = getBaseCellNumber(b) * 8 + lead_of(b); if (cnt[key] >= per) continue; cnt[key]++;
+        ev_path(a, b);
+    }
+    free(d);
+}
 int main(int argc, char **argv) {
     if (argc == 6 && !strcmp(argv[1], "all")) {
         int res = atoi(argv[2]), no = atoi(argv[3]); vt_seed(strtoull(argv[4], 0, 10) + 9); vt_open(argv[5]);
@@ -183,6 +196,19 @@ int main(int argc, char **argv) {
         }
     } else if (argc == 5 && !strcmp(argv[1], "c14")) {
         int quick = argv[2][0] == 'q'; vt_seed(strtoull(argv[3], 0, 10) + 14); vt_open(argv[4]);
+        /* the pentagon unfolding, class by class: origins with each leading digit inside each pentagon base cell (even and odd
+           resolutions) against targets of every (base cell, leading digit) class within K steps */
+        { H3Index p0[12]; getPentagons(0, p0);
+          for (int res = 2; res <= (quick ? 3 : 5); res++) for (int pi = 0; pi < 12; pi++) {
+              if (quick && res == 3 && (pi % 3)) continue;
+              int bc = getBaseCellNumber(p0[pi]); int K = res == 2 ? 20 : res == 3 ? 26 : 45;
+              for (int lead = 2; lead <= 6; lead++) {
+                  uint64_t h = ((uint64_t)1 << 59) | ((uint64_t)res << 52) | ((uint64_t)bc << 45);
+                  int z = (int)vt_randn(res);
+                  for (int r = 1; r <= 15; r++) { uint64_t dg = r > res ? 7 : r <= z ? 0 : r == z + 1 ? (uint64_t)lead : vt_randn(7); h |= dg << (3 * (15 - r)); }
+                  if (isValidCell(h)) ev_path_classes(h, K, quick ? 3 : 6);
+              }
+          } }
         /* all pairs within k<=3(4) for cells of r<=2 (sampled origins), strata at all r, long paths at r>=5 */
         for (int res = 0; res <= 15; res++) {
             CellVec cv = {0};
